@@ -16,7 +16,7 @@ ASSUMPTIONS = [
     "linkage-class deficiencies are compared as multisets (class order is unspecified)",
 ]
 RULE = {
-    "quick": "every network with <=2 reactions over {A,B,C}, coefficients {0,1,2}, one per species-permutation class, + textbook networks; each analysed from "
+    "quick": "every network with <=2 reactions over {A,B,C}, coefficients {0,1,2}, one per species-permutation class, + every digraph of unimolecular reactions on 4 species with <=5 arcs (1 585; thorough: all 4 095) + textbook networks; each analysed from "
     "the hypergraph and from its exported bipartite graph (string and integer ids); non-trivial = at least 2 linkage classes or deficiency > 0 or not weakly reversible",
     "thorough": "all 266 084 labelled 2-reaction networks + all 3-reaction networks with coefficients {0,1} + 4 species x 2 reactions x {0,1} + textbook",
 }
@@ -30,9 +30,22 @@ EXTRA = [
 ]
 
 
+def unimolecular_digraphs(tier):
+    """every network of unimolecular reactions X>>Y among A..D with <=5 (thorough: any number of) distinct arcs:
+    all complex graphs on four single-species complexes (linkage classes, strong components, sources and sinks)"""
+    import itertools
+
+    arcs = [(i, j) for i in range(4) for j in range(4) if i != j]
+    kmax = 5 if tier == "quick" else 12
+    for k in range(1, kmax + 1):
+        for sub in itertools.combinations(arcs, k):
+            yield "; ".join(f"{ec.SPECIES[i]}>>{ec.SPECIES[j]}" for i, j in sub)
+
+
 def gen(tier, seed):
     for net in ec.networks(3, 2, 2, quotient=(tier == "quick")):
         yield ec.net_str(net)
+    yield from unimolecular_digraphs(tier)
     for s in TEXTBOOK + EXTRA:
         yield s
     if tier != "quick":
